@@ -85,11 +85,33 @@ func TextOK(v Val) bool {
 	case 'i':
 		return v.I >= 0
 	case 's':
-		return !strings.ContainsAny(v.S, "'\\\n")
+		return strTextOK(v.S)
 	case 'b':
 		return true
 	}
 	return false
+}
+
+// strTextOK: can the string stand between single quotes as it is? mkdb keeps
+// the text between the quotes verbatim (escape sequences are recognised by
+// its scanner but not translated), so a value may contain the two-character
+// sequences \\' \\" and \\\\ - backslash included - but no bare single quote, no
+// other backslash and no line break.
+func strTextOK(s string) bool {
+	for i := 0; i < len(s); i++ {
+		switch s[i] {
+		case '\n':
+			return false
+		case '\'':
+			return false
+		case '\\':
+			if i+1 >= len(s) || !strings.ContainsRune("\\'\"", rune(s[i+1])) {
+				return false
+			}
+			i++
+		}
+	}
+	return true
 }
 
 // num writes a non-negative integer, with leading zeros under ZeroPad.
